@@ -279,6 +279,7 @@ impl DIDUrl {
 
   /// Parse a [`DIDUrl`] from a string.
   pub fn parse(input: impl AsRef<str>) -> Result<Self, Error> {
+    crate::did::check_percent_encoded_octets(input.as_ref())?;
     let did_url: BaseDIDUrl = BaseDIDUrl::parse(input)?;
     Self::from_base_did_url(did_url)
   }
@@ -395,6 +396,7 @@ impl DIDUrl {
     }
 
     // Parse DID Url.
+    crate::did::check_percent_encoded_octets(segment)?;
     let base_did_url: BaseDIDUrl = BaseDIDUrl::parse(self.to_string())?.join(segment)?;
     Self::from_base_did_url(base_did_url)
   }
